@@ -7,6 +7,7 @@ CONSTANTS
   PhysPage <- MCPhys
   Bufs <- MCBufsSlack
   Ctxs = {1}
+  Queues = {1}
   Ranges <- MCRangesSlack
   KWrites <- MCKWritesSlack
   MaxCmds = 3
